@@ -338,6 +338,9 @@ impl MqttShared {
                     pkt.packet_id()
                 );
                 Err(ProtocolError::packet_id_mismatch())
+            } else if !pkt.is_match(tp) {
+                log::trace!("MQTT protocol error, unexpected packet");
+                Err(ProtocolError::unexpected_packet(pkt.packet_type(), tp.expected_str()))
             } else if matches!(pkt, Ack::Receive(_)) {
                 // get publish ack channel
                 log::trace!("Ack packet with id: {}", pkt.packet_id());
@@ -558,6 +561,7 @@ impl Ack {
         match (self, tp) {
             (Ack::Publish(_), AckType::Publish)
             | (Ack::Receive(_), AckType::Receive)
+            | (Ack::Complete(_), AckType::Complete)
             | (Ack::Subscribe { .. }, AckType::Subscribe)
             | (Ack::Unsubscribe(_), AckType::Unsubscribe) => true,
             (_, _) => false,
